@@ -152,18 +152,23 @@ pub struct Report {
     pub assumptions: Vec<String>,
     pub caps: Vec<String>,
     pub extra: BTreeMap<String, Value>,
+    last: Option<std::time::Instant>,
 }
 
 impl Report {
     pub fn new(rule: &str) -> Self {
         Self {
             rule: rule.to_string(),
+            last: Some(std::time::Instant::now()),
             ..Default::default()
         }
     }
     pub fn phase(&mut self, phase: Phase) {
+        let now = std::time::Instant::now();
+        let dt = self.last.map(|t| now.duration_since(t).as_secs_f64()).unwrap_or(0.0);
+        self.last = Some(now);
         eprintln!(
-            "[phase] {}: states={} transitions={} max_depth={} exhaustive={} bound={}",
+            "[phase +{dt:.1}s] {}: states={} transitions={} max_depth={} exhaustive={} bound={}",
             phase.name, phase.states, phase.transitions, phase.max_depth, phase.exhaustive, phase.bound
         );
         self.phases.push(phase);
@@ -259,4 +264,95 @@ pub fn permutations(n: usize) -> Vec<Vec<usize>> {
     let mut out = Vec::new();
     rec(&mut Vec::new(), &mut vec![false; n], n, &mut out);
     out
+}
+
+// ---------------------------------------------------------------------------------------------
+// Crash/hang containment: every worker thread records the case it is working on in a slot file;
+// a watchdog thread turns a case that runs longer than the limit into exit status 3; the
+// supervisor (parent process) attributes aborts by replaying the recorded cases.
+// ---------------------------------------------------------------------------------------------
+
+use std::sync::Arc;
+use std::time::Instant;
+
+pub const HANG_LIMIT_S: u64 = 10;
+pub const EXIT_HANG: i32 = 3;
+
+struct Slot {
+    file: std::fs::File,
+    state: Arc<Mutex<Option<(Instant, String)>>>,
+}
+
+static SLOTS: Mutex<Vec<Arc<Mutex<Option<(Instant, String)>>>>> = Mutex::new(Vec::new());
+
+thread_local! {
+    static SLOT: std::cell::RefCell<Option<Slot>> = const { std::cell::RefCell::new(None) };
+}
+
+fn slot_dir() -> Option<PathBuf> {
+    std::env::var_os("BWMC_SLOT_DIR").map(PathBuf::from)
+}
+
+/// Records the case the current thread is about to run (no-op outside a supervised child).
+/// One `pwrite` per case: 8-byte length, then the case.
+pub fn slot_write(case: &str) {
+    use std::os::unix::fs::FileExt;
+    let Some(dir) = slot_dir() else { return };
+    SLOT.with(|slot| {
+        let mut slot = slot.borrow_mut();
+        if slot.is_none() {
+            let state = Arc::new(Mutex::new(None));
+            let index = {
+                let mut all = SLOTS.lock().unwrap();
+                all.push(Arc::clone(&state));
+                all.len()
+            };
+            let file = std::fs::File::create(dir.join(format!("slot-{index}.bin"))).expect("create slot file");
+            *slot = Some(Slot { file, state });
+        }
+        let s = slot.as_mut().unwrap();
+        let mut buffer = Vec::with_capacity(case.len() + 8);
+        buffer.extend_from_slice(&(case.len() as u64).to_le_bytes());
+        buffer.extend_from_slice(case.as_bytes());
+        let _ = s.file.write_all_at(&buffer, 0);
+        *s.state.lock().unwrap() = Some((Instant::now(), case.to_string()));
+    });
+}
+
+/// Reads a slot file written by [`slot_write`].
+pub fn slot_read(path: &std::path::Path) -> Option<String> {
+    let bytes = std::fs::read(path).ok()?;
+    if path.extension().is_some_and(|e| e == "json") {
+        return String::from_utf8(bytes).ok();
+    }
+    let len = u64::from_le_bytes(bytes.get(..8)?.try_into().ok()?) as usize;
+    String::from_utf8(bytes.get(8..8 + len)?.to_vec()).ok()
+}
+
+/// Marks the current thread idle (in memory only; the slot file keeps the last case).
+pub fn slot_clear() {
+    if slot_dir().is_none() {
+        return;
+    }
+    SLOT.with(|slot| {
+        if let Some(s) = slot.borrow_mut().as_mut() {
+            *s.state.lock().unwrap() = None;
+        }
+    });
+}
+
+/// Starts the watchdog of a supervised child.
+pub fn start_watchdog() {
+    let Some(dir) = slot_dir() else { return };
+    std::thread::spawn(move || loop {
+        std::thread::sleep(std::time::Duration::from_millis(500));
+        let all = SLOTS.lock().unwrap().clone();
+        for state in all {
+            let stuck = state.lock().unwrap().as_ref().filter(|(t, _)| t.elapsed().as_secs() >= HANG_LIMIT_S).map(|(_, c)| c.clone());
+            if let Some(case) = stuck {
+                let _ = std::fs::write(dir.join("hang.json"), case);
+                std::process::exit(EXIT_HANG);
+            }
+        }
+    });
 }
